@@ -107,7 +107,42 @@ pub fn judge(case: &Case) -> Verdict {
     }
 }
 
+fn representative_items() -> Vec<Case> {
+    let c = |r: u8, s: u8| crate::oracle::cards::Card::new(r, s).word();
+    let hands: Vec<[u32; 5]> = vec![
+        [c(12, 3), c(11, 3), c(10, 3), c(9, 3), c(8, 3)],
+        [c(12, 3), c(11, 3), c(10, 3), c(9, 3), c(8, 2)],
+        [c(12, 3), c(11, 3), c(10, 3), c(9, 3), c(6, 3)],
+        [c(12, 3), c(12, 2), c(11, 3), c(10, 3), c(8, 3)],
+        [c(12, 3), c(3, 3), c(2, 3), c(1, 3), c(0, 3)],
+        [c(12, 2), c(3, 3), c(2, 3), c(1, 3), c(0, 3)],
+        [c(4, 2), c(3, 3), c(2, 3), c(1, 3), c(0, 3)],
+        [c(7, 0), c(7, 1), c(7, 2), c(3, 3), c(3, 0)],
+        [c(5, 1), c(3, 1), c(2, 1), c(1, 1), c(0, 1)],
+        [c(12, 0), c(10, 1), c(7, 2), c(4, 3), c(1, 0)],
+    ];
+    let mut items = Vec::new();
+    for h in &hands {
+        for ob in OBS {
+            items.push(Case::w32(ob, h));
+        }
+    }
+    items
+}
+
 pub fn run(ctx: &Ctx, rep: &mut Report) {
+    if ctx.probe {
+        if let Some((i, reps)) = super::repeat_probe_request() {
+            let items = representative_items();
+            if i < items.len() {
+                super::repeat_probe_body(rep, judge, &items[i], reps);
+            }
+        }
+        return;
+    }
+    // call-count dependent state: before anything else has called into the crate in THIS process nothing is lost, because
+    // every probe is its own fresh process
+    super::cold_repeat_probe(ctx, rep, representative_items().len(), 512);
     let o = oracle();
     let d = deck();
     let perms: Vec<[usize; 5]> = permutations(5).into_iter().map(|p| [p[0], p[1], p[2], p[3], p[4]]).collect();
